@@ -174,7 +174,7 @@ Section CollCtor.
   Proof. apply (proj2 (ul_max_none _ _ _ UL _ (ul_empty_inv _ _ _ UL))). apply ulen_empty. Qed.
 
   Lemma ld_le : (ld + pd_of ek <= 63)%nat.
-  Proof. apply (list_depth_le ek EKW capN (proj2 CAP)). Qed.
+  Proof. apply (list_depth_le ek EKW capN CAP). Qed.
   Lemma cap_ld : capN <= cap ek ld.
   Proof. apply (IterP.cap_list_depth ek capN CAP). Qed.
 
@@ -889,7 +889,7 @@ Section CollCtor.
         apply IHk.
       - apply IH. exact W.
     Qed.
-    (* Vector::default never panics (capN >= 1 is part of capacity_ok) *)
+    (* Vector::default never panics (also at capacity 0: from_elem of 0 elements is the empty vector) *)
     Theorem vector_default_spec R st G : gok st G ->
       wp R (vector_default ek M capN) (vctor_post st G (repeatN (edefault ek) capN)) st.
     Proof.
